@@ -259,6 +259,10 @@ func c06Run(c *Ctx) {
 				if (layout == 0 || !c.Quick()) && c.Mine() {
 					c06Judge(c, &Case{Gen: "planted-faults-cli", Mode: "cli", Src: src, Stdin: stdin, X: x})
 				}
+				// the same file beginning with blank lines (line numbers count from the first byte of the file)
+				if layout == 0 && (hash64(f.name+p.name)%4 == 0 || !c.Quick()) && c.Mine() {
+					c06Judge(c, &Case{Gen: "planted-faults-cli", Mode: "cli", Src: []string{"\n\n", "\r\n \r\n\t\r\n", "\n"}[hash64(p.name)%3] + src + "\n\n", Stdin: stdin, X: x})
+				}
 			}
 		}
 	}
